@@ -484,3 +484,55 @@ Section SimSort.
         rewrite <- (Htrunc (S a) o' s') by lia. apply R_firstn. exact R5.
   Qed.
 End SimSort.
+
+(** ** Forward simulation for every operation, and for whole histories *)
+Section SimAll.
+  Variable key : nat -> Z.
+  Notation astep := (SListModel.step key false).
+
+  Theorem sim_step a p o :
+    sys_wf a -> R a p ->
+    match astep a o with
+    | Done a' out => exists p', p_step key p o = Done p' out /\ R a' p'
+    | Precond => p_step key p o = Precond
+    | _ => True
+    end.
+  Proof.
+    intros W HR.
+    destruct o as [l e|l e|l b e|l b|l|l|l|l|l|l|d sr|x y|l stop|l];
+      try (apply (sim_step_nosort key a p _ W HR); discriminate).
+    (* Sort *)
+    pose proof W as (Wf & Wn).
+    cbn [SListModel.step p_step]. unfold with_list, with_obj.
+    destruct (nth_error a l) as [sl|] eqn:E; [|rewrite (R_none _ _ _ HR E); auto].
+    destruct (proj2 HR _ _ E) as (ob & Eo & C & Ht & Hc). rewrite Eo.
+    pose proof (nth_error_Forall _ _ _ _ Wf E) as Wsl.
+    rewrite Hc, (wf_count_len sl Wsl).
+    destruct (sort key (length (items sl)) sl) as [sl'|] eqn:ES; simpl; auto.
+    destruct (sim_sort key _ a p l sl sl' W HR E (le_n _) ES) as (p' & Ep & HR').
+    rewrite Ep. eauto.
+  Qed.
+
+  (** the pointer-level model produces exactly the outputs of the sequence
+      model and ends in a related state *)
+  Lemma sim_run ops : forall a p,
+    sys_wf a -> R a p ->
+    match run (SListModel.step key false) a ops, run (p_step key) p ops with
+    | (Done a' _, outs), (Done p' _, outs') => R a' p' /\ outs = outs' /\ sys_wf a'
+    | (Precond, outs), (Precond, outs') => outs = outs'
+    | _, _ => False
+    end.
+  Proof.
+    induction ops as [|o ops IH]; intros a p W HR; simpl; auto.
+    pose proof (step_correct key a o W) as HC.
+    pose proof (sim_step a p o W HR) as HS.
+    destruct (SListModel.step key false a o) as [a' out| | |]; try tauto.
+    - destruct HS as (p' & -> & HR'). destruct HC as (W' & _).
+      specialize (IH a' p' W' HR').
+      destruct (run (SListModel.step key false) a' ops) as [[? ?| | |] outs];
+        destruct (run (p_step key) p' ops) as [[? ?| | |] outs']; try tauto.
+      + destruct IH as (? & -> & ?); auto.
+      + subst; auto.
+    - rewrite HS. auto.
+  Qed.
+End SimAll.
